@@ -323,6 +323,14 @@ func isDigitOnlyClass(runes []rune) bool {
 	return true
 }
 
+// isAllDigitsClass reports whether the class is exactly [0-9]. Skipping a whole
+// digit run after a failed attempt needs every digit to extend the leading
+// repetition: with a subset such as [0-5] an attempt can die inside the run
+// ("1923.5": the attempt at '1' dies at '9') while a later digit starts a match.
+func isAllDigitsClass(runes []rune) bool {
+	return len(runes) == 2 && runes[0] == '0' && runes[1] == '9'
+}
+
 // isDigitLeadConcat checks if a concatenation pattern is digit-lead.
 // For concatenation, we iterate through elements:
 // - If an element is optional AND digit-only, we continue (it's fine either way)
@@ -543,15 +551,15 @@ func isDigitRunSkipSafe(re *syntax.Regexp) bool {
 		}
 		return isDigitRunSkipSafe(re.Sub[0])
 	case syntax.OpPlus, syntax.OpStar:
-		// + or * on a digit class: greedy unbounded → safe to skip
+		// + or * on the full digit class: greedy unbounded → safe to skip
 		if len(re.Sub) == 1 && re.Sub[0].Op == syntax.OpCharClass {
-			return isDigitOnlyClass(re.Sub[0].Rune)
+			return isAllDigitsClass(re.Sub[0].Rune)
 		}
 		return false
 	case syntax.OpRepeat:
 		// {N,} with no upper bound (Max == -1): greedy unbounded → safe
 		if re.Max == -1 && len(re.Sub) == 1 && re.Sub[0].Op == syntax.OpCharClass {
-			return isDigitOnlyClass(re.Sub[0].Rune)
+			return isAllDigitsClass(re.Sub[0].Rune)
 		}
 		return false
 	default:
